@@ -165,3 +165,26 @@ def on_ok_path(g, node):
         if g.reach([s]) & oks:
             return True
     return False
+
+
+def stale_reads(g, variant):
+    """read-modify-write freshness: pairs (write w, intervening write w2, read site r) such that the value stored by w
+    derives from a read r of a key of `variant` and another write w2 to a key of the same variant (a possibly aliasing
+    key) happens on a path between r and w — w would then store a value computed from a stale read."""
+    ws = [e for e in effects(g) if e.kind in ('sw', 'supd', 'sr') and key_variant(e.key)[0] == variant]
+    out = []
+    for w in ws:
+        if w.kind != 'sw':
+            continue
+        reads = set()
+        for x in subterms(w.val):
+            if x[0] == 'sget' and key_variant(x[2])[0] == variant and len(x) > 3 and x[3] is not None:
+                reads.add(tuple(x[3]))
+        for r in reads:
+            after_r = succ_reachable(g, [r])
+            for w2 in ws:
+                if w2 is w or w2.node not in after_r:
+                    continue
+                if w.node in succ_reachable(g, [w2.node]):
+                    out.append((w, w2, r))
+    return out
